@@ -395,17 +395,30 @@ func ipBlockToTable(cidr string, except []string) (*ipsetTable, error) {
 	if err != nil {
 		return nil, err
 	}
-	tbl := &ipsetTable{IPSet: ipset.IPSet{SetType: ipset.HashNet}, entries: []ipset.Entry{{Net: formatedCidr,
-		SetType: ipset.HashNet}}}
+	tbl := &ipsetTable{IPSet: ipset.IPSet{SetType: ipset.HashNet}}
+	for _, n := range hashNetCidrs(formatedCidr) {
+		tbl.entries = append(tbl.entries, ipset.Entry{Net: n, SetType: ipset.HashNet})
+	}
 	for i := range except {
 		formatedExcept, err := formatCidr(except[i])
 		if err != nil {
 			return nil, err
 		}
-		tbl.entries = append(tbl.entries, ipset.Entry{Net: formatedExcept, SetType: ipset.HashNet,
-			Options: []string{"nomatch"}})
+		for _, n := range hashNetCidrs(formatedExcept) {
+			tbl.entries = append(tbl.entries, ipset.Entry{Net: n, SetType: ipset.HashNet,
+				Options: []string{"nomatch"}})
+		}
 	}
 	return tbl, nil
+}
+
+// hashNetCidrs returns the members to store for a cidr in a hash:net set. Such a set cannot hold a network with
+// prefix length 0, the two /1 networks cover the same addresses.
+func hashNetCidrs(cidr string) []string {
+	if cidr == "0.0.0.0/0" {
+		return []string{"0.0.0.0/1", "128.0.0.0/1"}
+	}
+	return []string{cidr}
 }
 
 func formatCidr(cidr string) (string, error) {
